@@ -543,6 +543,9 @@ MC_CONN_SPEC = dict(module="MC_Conn", cfg="MC_Conn.spec.cfg", workers=8)
 MC_BUFFERS = dict(module="MC_Buffers", cfg="MC_Buffers.cfg", workers=4)
 MC_STREAMER = dict(module="MC_Streamer", cfg={"quick": "MC_Streamer.quick.cfg", "thorough": "MC_Streamer.thorough.cfg"}, workers=12)
 
+GEN_CONN = dict(module="Gen_Conn", cfg={"quick": "Gen_Conn.quick.cfg", "thorough": "Gen_Conn.thorough.cfg"},
+                simulate={"quick": {"num": 150, "depth": 60}, "thorough": {"num": 2500, "depth": 80}})
+
 REGISTRY = {
     "C01": dict(mode="c01", mc=[MC_STREAMER], trace_module="Trace_Stream", trace_cfg="Trace_Stream.cfg", props=["C01"],
                 nontrivial=has_tx, assumptions=STREAM_ASSUME,
@@ -565,14 +568,22 @@ REGISTRY = {
                      "Part 2: EVERY session of the TLC model MC_Session within the bound (Gen_Session: logs of <= 2 units x one fault action at "
                      "every point + clean attempt in quick; <= 3 units, and <= 2 units with two failed attempts, in thorough) replayed on the "
                      "real Streamer with hook tracing; each attempt's hook trace is validated packet by packet against Streamer!Step"),
-    "C05": dict(parts=[dict(mode="c05", race=True, conn=True, trace_module="Trace_Stream", trace_cfg="Trace_Stream.cfg", props=["C05"])],
+    "C05": dict(parts=[dict(mode="c05", race=True, conn=True, trace_module="Trace_Stream", trace_cfg="Trace_Stream.cfg", props=["C05"]),
+                       dict(mode="c05g", conn=True, trace_module="Trace_Stream", trace_cfg="Trace_Stream.cfg", props=["C05"])],
                 mc=[MC_CONN, MC_CONN_SPEC], nontrivial=has_tx, assumptions=STREAM_ASSUME + [
                     "the data-race clause is decided by the Go race detector on the replayed schedules (the Go memory model is not modelled in TLA+)"],
+                gen=GEN_CONN,
                 rule="scenario = history x stop cause x stop point x reader state (lock-step: waiting for the network / burst: holding an "
-                     "event) x handler fast / blocked-at-stop, followed by a clean attempt; run under go test -race; distinct by content"),
-    "C06": dict(mode="c06", conn=True, mc=[MC_CONN, MC_CONN_SPEC], trace_module="Trace_Stream", trace_cfg="Trace_Stream.cfg", props=["C06"],
+                     "event) x handler fast / blocked-at-stop, followed by a clean attempt; run under go test -race; distinct by content. "
+                     "Part 2: behaviours of MC_Conn drawn by TLC (Gen_Conn, simulation under a drawn environment plan: 150 quick / 2500 "
+                     "thorough) replayed on the real code with the library's hook points as scheduler gates, so that the real goroutines "
+                     "take their steps in the order TLC chose; followed by a clean attempt"),
+    "C06": dict(parts=[dict(mode="c06", conn=True, trace_module="Trace_Stream", trace_cfg="Trace_Stream.cfg", props=["C06"]),
+                       dict(mode="c06g", conn=True, trace_module="Trace_Stream", trace_cfg="Trace_Stream.cfg", props=["C06"])],
+                mc=[MC_CONN, MC_CONN_SPEC], gen=GEN_CONN,
                 nontrivial=has_tx, assumptions=STREAM_ASSUME,
-                rule="same schedule classes as C05 with arbitrary master error codes/messages; distinct by content"),
+                rule="same schedule classes as C05 with arbitrary master error codes/messages; distinct by content; plus the TLC-generated "
+                     "schedules of MC_Conn replayed with the hook points as scheduler gates (as C05 part 2)"),
     "C07": dict(mode="c07", mc=[MC_SESSION], trace_module="Trace_Stream", trace_cfg="Trace_Stream.cfg", props=["C07"],
                 assumptions=STREAM_ASSUME,
                 rule="scenario = (server id, file name, offset) incl. ids >= 2^31, 255-byte and UTF-8 names, offsets to 2^32-1, 1-3 attempts with "
